@@ -656,7 +656,7 @@ func (m *Msg) EnvelopeFrom(from string) error {
 // References:
 //   - https://datatracker.ietf.org/doc/html/rfc5322#section-3.4
 func (m *Msg) EnvelopeFromFormat(name, addr string) error {
-	return m.SetAddrHeader(HeaderEnvelopeFrom, fmt.Sprintf(`"%s" <%s>`, name, addr))
+	return m.SetAddrHeader(HeaderEnvelopeFrom, formatAddress(name, addr))
 }
 
 // From sets the "FROM" address in the mail body for the Msg.
@@ -691,7 +691,7 @@ func (m *Msg) From(from string) error {
 // References:
 //   - https://datatracker.ietf.org/doc/html/rfc5322#section-3.6.2
 func (m *Msg) FromFormat(name, addr string) error {
-	return m.SetAddrHeader(HeaderFrom, fmt.Sprintf(`"%s" <%s>`, name, addr))
+	return m.SetAddrHeader(HeaderFrom, formatAddress(name, addr))
 }
 
 // To sets one or more "TO" addresses in the mail body for the Msg.
@@ -741,7 +741,7 @@ func (m *Msg) AddTo(rcpt string) error {
 // References:
 //   - https://datatracker.ietf.org/doc/html/rfc5322#section-3.6.3
 func (m *Msg) AddToFormat(name, addr string) error {
-	return m.addAddr(HeaderTo, fmt.Sprintf(`"%s" <%s>`, name, addr))
+	return m.addAddr(HeaderTo, formatAddress(name, addr))
 }
 
 // ToIgnoreInvalid sets one or more "TO" addresses in the mail body for the Msg, ignoring any invalid addresses.
@@ -834,7 +834,7 @@ func (m *Msg) AddCc(rcpt string) error {
 // References:
 //   - https://datatracker.ietf.org/doc/html/rfc5322#section-3.6.3
 func (m *Msg) AddCcFormat(name, addr string) error {
-	return m.addAddr(HeaderCc, fmt.Sprintf(`"%s" <%s>`, name, addr))
+	return m.addAddr(HeaderCc, formatAddress(name, addr))
 }
 
 // CcIgnoreInvalid sets one or more "CC" (carbon copy) addresses in the mail body for the Msg, ignoring any
@@ -929,7 +929,7 @@ func (m *Msg) AddBcc(rcpt string) error {
 // References:
 //   - https://datatracker.ietf.org/doc/html/rfc5322#section-3.6.3
 func (m *Msg) AddBccFormat(name, addr string) error {
-	return m.addAddr(HeaderBcc, fmt.Sprintf(`"%s" <%s>`, name, addr))
+	return m.addAddr(HeaderBcc, formatAddress(name, addr))
 }
 
 // BccIgnoreInvalid sets one or more "BCC" (blind carbon copy) addresses in the mail body for the Msg,
@@ -1006,7 +1006,7 @@ func (m *Msg) ReplyTo(addr string) error {
 // References:
 //   - https://datatracker.ietf.org/doc/html/rfc5322#section-3.6.2
 func (m *Msg) ReplyToFormat(name, addr string) error {
-	return m.ReplyTo(fmt.Sprintf(`"%s" <%s>`, name, addr))
+	return m.ReplyTo(formatAddress(name, addr))
 }
 
 // Subject sets the "Subject" header for the Msg, specifying the topic of the message.
@@ -1276,7 +1276,7 @@ func (m *Msg) RequestMDNAddTo(rcpt string) error {
 // References:
 //   - https://datatracker.ietf.org/doc/html/rfc8098
 func (m *Msg) RequestMDNAddToFormat(name, addr string) error {
-	return m.RequestMDNAddTo(fmt.Sprintf(`"%s" <%s>`, name, addr))
+	return m.RequestMDNAddTo(formatAddress(name, addr))
 }
 
 // GetSender returns the currently set envelope "FROM" address for the Msg. If no envelope
@@ -2950,6 +2950,14 @@ func fileFromReader(name string, reader io.Reader) (*File, error) {
 			return readBytes, copyErr
 		},
 	}, nil
+}
+
+// formatAddress combines a display name and a mail address into the `"name" <address>` form that
+// the address parser understands. A backslash or a double quote in the name is written as a
+// quoted-pair, so that the name that is parsed back is the name that was given.
+func formatAddress(name, addr string) string {
+	name = strings.NewReplacer(`\`, `\\`, `"`, `\"`).Replace(name)
+	return fmt.Sprintf(`"%s" <%s>`, name, addr)
 }
 
 // fileFromReadSeeker returns a File pointer from a given io.ReadSeeker.
